@@ -248,3 +248,107 @@ Proof.
     replace (c01 * (2 * 2 ^ Z.of_nat c')) with (c01 * 2 ^ Z.of_nat c' * 2 ^ 1) by (change (2 ^ 1) with 2; lia).
     apply Z.div_mul. lia.
 Qed.
+
+(** the table rows are the pure descent on the trees of height <= 3: the
+    whole domain (1 + 3 + 7 + 15 entries) by computation *)
+Definition table_row_ok (c i : nat) : bool :=
+  implb (Z.of_nat i <? 2 ^ (Z.of_nat c + 1) - 1)
+    (match idxToPath_at (Z.land (maskAt c) 15) (Z.of_nat i) with
+     | Some t => t =? enc c (node_at c (Z.of_nat i))
+     | None => false
+     end).
+
+Lemma table_rows c idx : (c <= 3)%nat -> 0 <= idx < 2 ^ (Z.of_nat c + 1) - 1 ->
+  idxToPath_at (Z.land (maskAt c) 15) idx = Some (enc c (node_at c idx)).
+Proof.
+  intros Hc Hi.
+  assert (F : forallb (fun c => forallb (table_row_ok c) (seq 0 15)) (seq 0 4) = true)
+    by (vm_compute; reflexivity).
+  rewrite forallb_forall in F. specialize (F c ltac:(apply in_seq; lia)).
+  rewrite forallb_forall in F.
+  assert (2 ^ (Z.of_nat c + 1) <= 2 ^ 4) by (apply pow2_le; lia).
+  specialize (F (Z.to_nat idx) ltac:(apply in_seq; lia)).
+  unfold table_row_ok in F. rewrite Z2Nat.id in F by lia.
+  destruct (Z.ltb_spec idx (2 ^ (Z.of_nat c + 1) - 1)); [|lia]. cbn [implb] in F.
+  destruct (idxToPath_at (Z.land (maskAt c) 15) idx); [|discriminate].
+  apply Z.eqb_eq in F. now subst.
+Qed.
+
+(** the last statement: [(p2 >> 1) | table] is the word of the whole node *)
+Lemma combine_words h c q0 q1 : (h <= 30)%nat -> (c <= h)%nat -> length q0 = (h - c)%nat ->
+  (length q1 <= c)%nat ->
+  Z.lor (shr64 (p2At h c (val_msb q0)) 1) (enc c q1) = enc h (q0 ++ q1).
+Proof.
+  intros Hh Hc H0 H1.
+  pose proof (pow2_le_30 h Hh) as HPh. pose proof (pow2_le_30 c ltac:(lia)) as HPc.
+  pose proof (val_msb_bound q0) as HA. rewrite H0 in HA.
+  set (A := val_msb q0) in *.
+  set (P := 2 ^ Z.of_nat c) in *. set (Q := 2 ^ Z.of_nat (h - c)) in *.
+  assert (HQP : Q * P = 2 ^ Z.of_nat h).
+  { unfold Q, P. rewrite <- Z.pow_add_r by lia. f_equal. lia. }
+  assert (HQ : 0 < Q) by (apply pow2_pos; lia).
+  assert (E : shr64 (p2At h c A) 1 = (A * P) * 2 ^ 32 + (Q - 1) * P).
+  { rewrite shr64_div by lia. unfold p2At. rewrite pow2_succ by lia. fold P Q.
+    replace (A * (2 * P) * 2 ^ 32 + (Q - 1) * (2 * P)) with ((A * P * 2 ^ 32 + (Q - 1) * P) * 2 ^ 1)
+      by (change (2 ^ 1) with 2; lia).
+    apply Z.div_mul. lia. }
+  rewrite E, (enc_split c q1).
+  pose proof (valL_lt c q1 H1) as HV. pose proof (maskL_bound c q1 H1) as HM. fold P in HV, HM.
+  rewrite lor_halves by nia. unfold P.
+  rewrite (lor_hi_lo A (valL c q1) (Z.of_nat c)) by (fold P; lia).
+  rewrite (lor_hi_lo (Q - 1) (maskL c q1) (Z.of_nat c)) by (fold P; lia).
+  fold P.
+  rewrite enc_split.
+  assert (Hl : (length (q0 ++ q1) <= h)%nat) by (rewrite app_length; lia).
+  rewrite (maskL_eq h _ Hl), (maskL_eq c q1 H1). fold P.
+  unfold valL. rewrite val_msb_app. fold A. rewrite app_length, H0.
+  replace (Z.of_nat h - Z.of_nat (h - c + length q1)) with (Z.of_nat c - Z.of_nat (length q1)) by lia.
+  assert (HP : P = 2 ^ (Z.of_nat c - Z.of_nat (length q1)) * 2 ^ Z.of_nat (length q1))
+    by (apply pow2_split; lia).
+  rewrite <- HQP. rewrite HP. ring.
+Qed.
+
+Lemma loop_exit fuel p2 idx mask : (Z.land mask 15 =? 0) && (0 <? idx) = false ->
+  descent_loop fuel p2 idx mask = Some (p2, idx, mask).
+Proof. intros H. destruct fuel; cbn [descent_loop]; rewrite H; reflexivity. Qed.
+
+(** loop + table from any reachable state = pure descent from that state *)
+Lemma loop_result h : (h <= 30)%nat -> forall c q0 idx fuel,
+  (c <= h)%nat -> length q0 = (h - c)%nat -> 0 <= idx < 2 ^ (Z.of_nat c + 1) - 1 -> (c <= fuel)%nat ->
+  exists p2' idx' mask' t,
+    descent_loop fuel (p2At h c (val_msb q0)) idx (maskAt c) = Some (p2', idx', mask') /\
+    idxToPath_at (Z.land mask' 15) idx' = Some t /\
+    Z.lor (shr64 p2' 1) t = enc h (q0 ++ node_at c idx).
+Proof.
+  intros Hh. induction c as [|c' IH]; intros q0 idx fuel Hc H0 Hi Hf.
+  - (* height 0: the table *)
+    exists (p2At h 0 (val_msb q0)), idx, (maskAt 0), (enc 0 (node_at 0 idx)). split; [|split].
+    + apply loop_exit. rewrite mask15 by lia. reflexivity.
+    + apply table_rows; [lia|exact Hi].
+    + apply combine_words; try lia. apply node_at_length.
+  - destruct (Nat.leb_spec 4 (S c')) as [H4|H4]; [destruct (Z.ltb_spec 0 idx) as [Hp|Hp]|].
+    + (* one iteration *)
+      destruct fuel as [|f]; [lia|].
+      rewrite loop_step by lia.
+      destruct (node_at_step c' idx ltac:(lia)) as [E R]. cbn zeta in E, R.
+      set (b := 2 ^ Z.of_nat (S c') <=? idx) in *.
+      set (idx1 := if b then idx - 2 ^ Z.of_nat (S c') else idx - 1) in *.
+      destruct (IH (q0 ++ [b]) idx1 f ltac:(lia) ltac:(rewrite app_length; cbn [length]; lia) R ltac:(lia))
+        as (p2' & idx' & mask' & t & L1 & L2 & L3).
+      rewrite val_msb_snoc in L1.
+      exists p2', idx', mask', t. split; [exact L1|split; [exact L2|]].
+      rewrite L3, E, <- app_assoc. reflexivity.
+    + (* index 0 above the table: row 0 *)
+      assert (idx = 0) by lia. subst idx.
+      exists (p2At h (S c') (val_msb q0)), 0, (maskAt (S c')), 0. split; [|split].
+      * apply loop_exit. apply andb_false_r.
+      * assert (M := mask15 (S c') ltac:(lia)). destruct (Nat.leb_spec 4 (S c')); [|lia].
+        apply Z.eqb_eq in M. rewrite M. reflexivity.
+      * rewrite <- (enc_nil (S c')). rewrite node_at_0. apply combine_words; try lia. cbn; lia.
+    + (* height <= 3: the table *)
+      exists (p2At h (S c') (val_msb q0)), idx, (maskAt (S c')), (enc (S c') (node_at (S c') idx)).
+      split; [|split].
+      * apply loop_exit. rewrite mask15 by lia. destruct (Nat.leb_spec 4 (S c')); [lia|reflexivity].
+      * apply table_rows; [lia|exact Hi].
+      * apply combine_words; try lia. apply node_at_length.
+Qed.
